@@ -298,19 +298,19 @@ def run(ctx):
                                         maxhdrs if maxhdrs is not None else 100), H.zl(flat)))
         metas.append(("direct", kind, pieces, close, headreq, view))
 
-    for _ in range(ctx.n(700, 9000)):
+    for _ in range(ctx.n(1200, 9000)):
         kind = rng.choice(["req", "resp"])
         m = G.gen_msg(rng, kind)
         add_direct(kind, G.mutate(rng, m.data), "mutated", close=(kind == "resp" and rng.random() < 0.5),
                    headreq=m.headreq)
-    for _ in range(ctx.n(600, 7000)):
+    for _ in range(ctx.n(1000, 7000)):
         kind = rng.choice(["req", "resp"])
         data = G.targeted(rng, kind)
         small = rng.random() < 0.3
         add_direct(kind, data, "targeted", close=(kind == "resp" and rng.random() < 0.5),
                    maxline=rng.choice([8, 16, 30]) if small else None,
                    maxhdrs=rng.choice([2, 3, 4]) if small else None)
-    bad = ctx.coq_cases(H.HEADER, "beq", cases, name="c32")
+    bad = ctx.coq_cases(H.HEADER, "beq", cases, name="c32", shard=700)
     for i in bad[:5]:
         _, kind, pieces, close, headreq, view = metas[i]
         ctx.tie_broken("correspondence", "C32 model vs %s" % ("Requestant" if kind == "req" else "Respondent"),
@@ -321,7 +321,7 @@ def run(ctx):
     good = [b"GET / HTTP/1.1\r\nHost: a\r\n\r\n", b"POST /p HTTP/1.1\r\nContent-Length: 3\r\n\r\nabc",
             b"PUT /c HTTP/1.1\r\nTransfer-Encoding: chunked\r\n\r\n2\r\nhi\r\n0\r\n\r\n",
             b"GET /old HTTP/1.0\r\n\r\n"]
-    for _ in range(ctx.n(150, 1500)):
+    for _ in range(ctx.n(250, 1500)):
         msgs = []
         for j in range(3):
             r = rng.random()
@@ -357,7 +357,7 @@ def run(ctx):
 
     # (3) Patron
     pcases, pmetas = [], []
-    for _ in range(ctx.n(250, 2500)):
+    for _ in range(ctx.n(400, 2500)):
         r = rng.random()
         if r < 0.3:
             data = G.gen_msg(rng, "resp").data
@@ -382,7 +382,7 @@ def run(ctx):
     # not compared (evented responses are not appended to .responses); the theorem's claim checked
     # here is only "never escapes"
     emetas = []
-    for _ in range(ctx.n(150, 1500)):
+    for _ in range(ctx.n(250, 1500)):
         body = bytes(rng.choice(b"data: idevnr\r\n\n:0\xff\xfe\xc3\xa9") for _ in range(rng.randint(0, 40)))
         head = (b"HTTP/1.1 200 OK\r\nContent-Type: text/event-stream\r\n" +
                 rng.choice([b"", b"Transfer-Encoding: chunked\r\n"]) + b"\r\n")
